@@ -41,12 +41,22 @@ TRUSTED = ['random choices are read from the hook source and passed to the model
            'decides the same signs over Z; get_estimate divides each term by n, so the estimate is compared with the exact rational within the '
            'rigorous rounding bound (terms+2) * 2^-52 * sum|terms| (exact equality is implied when n is a power of two)']
 ASSUMPTIONS = ['the model counts n in Z (unbounded): n up to 2^40 is exercised (a sketch merged 33..40 times with a copy of itself, so any 32-bit '
-               'truncation of n is visible); n >= 2^64 (wrap of the uint64 counter), num_retained >= 2^32 and 31 or more levels (1 << height in '
-               'get_estimate) are outside the model and not exercised',
+               'truncation of n is visible) and up to 46 levels are reached (k = 2, 40..46 self-merges with a promoting kernel: iterator weights up to 2^45 '
+               'are compared); get_estimate is only queried below 31 levels while DEEP_ESTIMATES is off (its int weight 1 << height is undefined from '
+               'level 31 on: fixes/20_estimate_weight_shift.patch); n >= 2^64, num_retained >= 2^32 and one compaction dropping more than 2^32 points '
+               'are outside the model and not exercised; one compaction dropping 65999 points is exercised by the implementation-only family densitybigk',
                'self-merge (a.merge(a)) is not exercised here: it is a use-after-free in std::copy/back_inserter, left to C19',
                'the error guarantee of the coreset after compaction (discrepancy bound) is statistical and not claimed']
 
 KINDS = {0: 'dyadic', 1: 'signed', 2: 'gaussian'}
+DEEP_ESTIMATES = __import__('os').environ.get('VERIF_DENSITY_DEEP_ESTIMATES') == '1'   # (maintainer: replace by True after the patch)
+                         # get_estimate computes its weight as (1 << height) in int: undefined from level 31 on (see ASSUMPTIONS); set to True
+                         # once fixes/20_estimate_weight_shift.patch is applied, the deep cases then also query estimates at 32..45 levels
+
+def kcode(rng, kind):
+    """kernel code of a `new` op: kind + 4 * parameter; the harness kernels 0 and 1 get radius 20 - parameter as their STATE, handed to the
+       sketch through the public constructor (a default-constructed harness kernel has a radius no script uses)"""
+    return kind if kind == 2 else kind + 4 * rng.choice([0, 0, 3, 10, 15])
 
 def pt(rng, dim, kind, far=0.1):
     if kind == 2:
@@ -57,7 +67,7 @@ def pt(rng, dim, kind, far=0.1):
 
 def gen_random(rng, ci, tier):
     ops = []; tags = set()
-    kind = rng.choice([0, 0, 1, 2])
+    kind = rng.choice([0, 0, 1, 2]); code = kcode(rng, kind)
     k = rng.choice([2, 2, 3, 4, 5, 8, 16]) if ci % 25 else 64
     dim = rng.choice([1, 2, 3]) if ci % 9 else 0
     far = rng.choice([0.0, 0.0, 0.1, 0.3, 1.0])
@@ -67,7 +77,7 @@ def gen_random(rng, ci, tier):
     for r in range(nreg):
         kk = k if rng.random() < 0.8 else rng.choice([2, 3, k + 1, 1, 0])
         dd = dim if rng.random() < 0.85 else rng.choice([0, 1, 2])
-        ops.append([1, r, kk, dd, kind])
+        ops.append([1, r, kk, dd, code])
         if kk >= 2:
             dims[r] = dd
     def query(r):
@@ -118,9 +128,9 @@ def gen_random(rng, ci, tier):
 
 def gen_exact(rng, ci):
     """no compaction: fewer than k points in total; many queries (exact kernel mean)"""
-    kind = rng.choice([0, 1, 2])
+    kind = rng.choice([0, 1, 2]); code = kcode(rng, kind)
     k = rng.choice([8, 16, 33, 64]); dim = rng.choice([1, 2, 3])
-    ops = [[99, ci], [1, 0, k, dim, kind], [1, 1, k, dim, kind]]
+    ops = [[99, ci], [1, 0, k, dim, code], [1, 1, k, dim, code]]
     n = rng.randrange(1, k)
     for i in range(n):
         ops.append([2, rng.randrange(2)] + pt(rng, dim, kind, 0.1))
@@ -150,8 +160,8 @@ def gen_directed(rng, ci):
     k = rng.choice([2, 3, 4]); dim = rng.choice([1, 2])
     ops = []
     if mode == 0:      # kernel exactly 0 everywhere, first bit 0: a compaction drops every point
-        kind = rng.choice([0, 2])
-        ops += [[1, 0, k, dim, kind], [1, 1, k, dim, kind], [1, 2, k, dim, kind]]
+        kind = rng.choice([0, 2]); code = kcode(rng, kind)
+        ops += [[1, 0, k, dim, code], [1, 1, k, dim, code], [1, 2, k, dim, code]]
         for i in range(k - 1):
             ops.append([2, 0] + [200 * (i + 1)] * dim)
         ops.append([2, 1] + [-200] * dim)
@@ -160,15 +170,15 @@ def gen_directed(rng, ci):
                 [7, 0, 1], [4, 1]]
         tags = ['directed-drop-all', 'merge', 'compaction']
     elif mode == 1:    # signed kernel, odd first coordinates, first bit 1: every compaction promotes every point
-        ops += [[1, 0, k, dim, 1]]
+        ops += [[1, 0, k, dim, kcode(rng, 1)]]
         for i in range(12 * k):
             ops.append([98] + [1] * (4 * k + 4))
             ops.append([2, 0] + [2 * rng.randrange(-2, 2) + 1] * dim)
         ops += [[4, 0], [6, 0], [5, 0] + [1] * dim]
         tags = ['directed-promote-all', 'compaction']
     elif mode == 2:    # deep: k = 2, many updates, random choices
-        kind = rng.choice([0, 1, 2])
-        ops += [[99, ci], [1, 0, 2, dim, kind], [1, 1, 2, dim, kind]]
+        kind = rng.choice([0, 1, 2]); code = kcode(rng, kind)
+        ops += [[99, ci], [1, 0, 2, dim, code], [1, 1, 2, dim, code]]
         for i in range(120):
             ops.append([2, i % 2 if i > 90 else 0] + pt(rng, dim, kind, 0.05))
             if i % 16 == 15:
@@ -176,9 +186,9 @@ def gen_directed(rng, ci):
         ops += [[3, 1, 0], [4, 1], [6, 1], [3, 0, 1], [4, 0], [6, 0], [5, 0] + pt(rng, dim, kind, 0.0), [7, 0, 2], [4, 2], [6, 2]]
         tags = ['deep', 'merge', 'compaction', KINDS[kind]]
     else:              # wrong dimensions everywhere
-        kind = 2 if ci == 3 else rng.choice([0, 1, 2])
-        ops += [[1, 0, k, 2, kind], [1, 1, k, 3, kind], [2, 0, 0, 0], [2, 0, 0], [2, 0, 0, 0, 0], [2, 0], [2, 1, 0, 0], [2, 1, 0, 0, 0],
-                [3, 0, 1], [3, 1, 0], [4, 0], [4, 1], [1, 2, k, 7, kind], [3, 0, 2], [3, 2, 0], [4, 0], [4, 2],
+        kind = 2 if ci == 3 else rng.choice([0, 1, 2]); code = kcode(rng, kind)
+        ops += [[1, 0, k, 2, code], [1, 1, k, 3, code], [2, 0, 0, 0], [2, 0, 0], [2, 0, 0, 0, 0], [2, 0], [2, 1, 0, 0], [2, 1, 0, 0, 0],
+                [3, 0, 1], [3, 1, 0], [4, 0], [4, 1], [1, 2, k, 7, code], [3, 0, 2], [3, 2, 0], [4, 0], [4, 2],
                 [5, 0, 0, 0], [5, 0, 0, 0, 40], [5, 1, 0, 0, 0], [5, 1, 0, 0, 0, 0, 40]]
         if kind != 2 or ci == 3:
             ops.append([5, 1, 0])      # shorter query: with the Gaussian kernel an out-of-bounds read (sanitizer stop)
@@ -191,17 +201,17 @@ def gen_big_n(rng, ci):
        count and the number of levels stay tiny while n grows; a few updates in between keep some points retained.  The copy is made by
        merging into a fresh sketch (even cases) or by serialize/deserialize (odd cases).  Then the big sketch is merged into a fresh
        and into a non-empty sketch, with getters, iteration and estimates."""
-    k = rng.choice([2, 3, 4]); dim = rng.choice([1, 2]); kind = 1
+    k = rng.choice([2, 3, 4]); dim = rng.choice([1, 2]); kind = 1; code = kcode(rng, 1)
     def p():
         return [2 * rng.randrange(-3, 3) + 1] + [rng.randrange(-3, 4) for _ in range(dim - 1)]
     Z = [98] + [0] * 48
-    ops = [[1, 0, k, dim, kind]]
+    ops = [[1, 0, k, dim, code]]
     for _ in range(rng.randrange(1, k + 1)):
         ops += [Z, [2, 0] + p()]
     rounds = rng.randrange(33, 41)
     for j in range(rounds):
         if ci % 2 == 0:
-            ops += [[1, 1, k, dim, kind], Z, [3, 1, 0]]
+            ops += [[1, 1, k, dim, code], Z, [3, 1, 0]]
         else:
             ops += [[7, 0, 1]]
         ops += [Z, [3, 0, 1], [4, 0]]
@@ -212,10 +222,81 @@ def gen_big_n(rng, ci):
     for _ in range(rng.randrange(0, k)):
         ops += [Z, [2, 0] + p()]
     ops += [[4, 0], [6, 0], [5, 0] + p(),
-            [1, 2, k, dim, kind], Z, [3, 2, 0], [4, 2], [6, 2], [5, 2] + p(),
-            [1, 3, k, dim, kind], Z, [2, 3] + p(), Z, [3, 3, 0], [4, 3], [6, 3], [5, 3] + p(),
+            [1, 2, k, dim, code], Z, [3, 2, 0], [4, 2], [6, 2], [5, 2] + p(),
+            [1, 3, k, dim, code], Z, [2, 3] + p(), Z, [3, 3, 0], [4, 3], [6, 3], [5, 3] + p(),
             [7, 0, 1], [4, 1], [5, 1] + p()]
     return dict(id='b%d' % ci, ops=ops, tags=['big-n', 'merge', 'compaction', KINDS[kind]])
+
+def gen_deep(rng, ci):
+    """32..45 levels: k = 2 and the positive dyadic kernel on (nearly) identical points, so every compaction promotes about half of its
+       level and the total weight is kept: merging the sketch with a copy of itself R times gives about R - 5 levels while only ~2 * levels
+       points are retained.  The iteration (point, weight 2^level) and the getters are observed after every merge; estimates only while the
+       sketch has fewer than 31 levels unless DEEP_ESTIMATES.  Random (hooked) choices."""
+    dim = rng.choice([1, 2]); code = kcode(rng, 0)
+    def p():
+        return [rng.choice([0, 0, 0, 1]) for _ in range(dim)]
+    ops = [[99, rng.randrange(1 << 30)], [1, 0, 2, dim, code]]
+    for _ in range(rng.randrange(1, 4)):
+        ops.append([2, 0] + p())
+    rounds = rng.randrange(40, 47)
+    for j in range(rounds):
+        if ci % 2 == 0:
+            ops += [[1, 1, 2, dim, code], [3, 1, 0]]
+        else:
+            ops += [[7, 0, 1]]
+        ops += [[3, 0, 1], [4, 0], [6, 0]]
+        if j % 7 == 3:
+            ops += [[2, 0] + p()]
+        if (j < 24 and j % 5 == 0) or (DEEP_ESTIMATES and j >= 36):
+            ops += [[5, 0] + p()]
+    ops += [[1, 2, 2, dim, code], [2, 2] + p(), [3, 2, 0], [4, 2], [6, 2], [7, 2, 3], [4, 3], [6, 3]]
+    if DEEP_ESTIMATES:
+        ops += [[5, 2] + p(), [5, 3] + p()]
+    return dict(id='L%d' % ci, ops=ops, tags=['deep-levels', 'merge', 'compaction', 'dyadic'])
+
+def gen_big_k(rng, tier):
+    """implementation-only family: ONE compaction that drops more than 65535 points.  Two exact-mode sketches of k = 33000 points each, all
+       66000 points at mutual distance >= 1000 (kernel exactly 0 between any two), merged: the single compaction of level 0 keeps at most one
+       point.  The list-based model is not run on this size; the oracle checks the property predicates on the implementation's outputs."""
+    k = 33000
+    ops = [[99, rng.randrange(1 << 30)], [1, 0, k, 1, 0], [1, 1, k, 1, 0], [12, 0, k, 0, 1000], [12, 1, k, -1000, -1000],
+           [4, 0], [4, 1], [3, 0, 1], [4, 0], [6, 0], [5, 0, 0], [2, 0, 500], [4, 0], [6, 0]]
+    return [dict(id='K0', ops=ops, tags=['big-k', 'merge', 'compaction'], fed={0: k, 1: k})]
+
+def oracle_big_k(case, irecs, mrecs):
+    fails = []
+    def fail(sig, what, i):
+        fails.append(dict(sig=sig, what=what, op_index=i))
+    fed = {}
+    for i, op in enumerate(case['ops']):
+        if i >= len(irecs):
+            break
+        R = irecs[i]['R']; F = irecs[i].get('F'); c = op[0]
+        if c == 12 and R == [1]: fed[op[1]] = fed.get(op[1], 0) + op[2]
+        elif c == 2 and R == [1]: fed[op[1]] = fed.get(op[1], 0) + 1
+        elif c == 3 and R == [1]: fed[op[1]] = fed.get(op[1], 0) + fed.get(op[2], 0)
+        elif c in (2, 3, 12) and R != [1]:
+            fail('update_refused', 'operation %s refused' % op[:3], i)
+        elif c == 4 and R != [-1]:
+            n, ret, est, empty, k, dim = R[:6]
+            if n != fed.get(op[1], 0):
+                fail('n_exact', 'n = %d but %d points were fed' % (n, fed.get(op[1], 0)), i)
+            if F and ret > k * F[0]:
+                fail('retained_bound', 'num_retained %d > k %d * levels %d at rest' % (ret, k, F[0]), i)
+        elif c == 6 and R != [-1]:
+            ret, cnt = R[0], R[1]
+            if ret != cnt:
+                fail('retained_vs_iteration', 'num_retained %d but iteration yields %d points (one compaction dropped %d points)' %
+                     (ret, cnt, 66000 - cnt), i)
+            levels = F[0] if F else 1
+            for w in R[2::2]:
+                if w <= 0 or (w & (w - 1)) or w >= (1 << levels):
+                    fail('iteration_weight', 'iterator weight %d is not 2^level for a level below %d' % (w, levels), i); break
+        elif c == 5 and R == [1] and F:
+            v = dbl(F[0])
+            if v != v or v < 0 or v == float('inf'):
+                fail('estimate_negative_or_nonfinite', 'estimate %r' % v, i)
+    return fails
 
 def gen(rng, tier):
     q = tier == 'quick'
@@ -230,6 +311,8 @@ def gen(rng, tier):
         cases.append(gen_directed(rng, ci))
     for ci in range(8 if q else 40):
         cases.append(gen_big_n(rng, ci))
+    for ci in range(6 if q else 30):
+        cases.append(gen_deep(rng, ci))
     return cases
 
 def dbl(bits):
@@ -253,7 +336,7 @@ def oracle(case, irecs, mrecs):
         if i > 0 and irecs[i - 1]['R'] != mrecs[i - 1]['R'] and case['ops'][i - 1][0] not in (4, 5, 6, 8):
             break       # implementation and model diverged at a state-changing operation: the model's ground truth no longer describes this history
         if c == 1 and R == [1] and len(op) >= 5:
-            regs[op[1]] = (op[2], op[3], op[4]); deser.discard(op[1])
+            regs[op[1]] = (op[2], op[3], op[4] % 4); deser.discard(op[1])
         elif c == 7 and R == [1] and op[1] in regs:
             regs[op[2]] = regs[op[1]]; deser.add(op[2])
         elif c == 2 and op[1] in regs:
@@ -336,7 +419,7 @@ def crash_sig(case, text):
     short = False
     for op in case['ops']:
         if op[0] == 1 and len(op) >= 5 and op[2] >= 2:
-            dims[op[1]] = (op[3], op[4])
+            dims[op[1]] = (op[3], op[4] % 4)
         elif op[0] == 7 and op[1] in dims:
             dims[op[2]] = dims[op[1]]
         elif op[0] == 5 and op[1] in dims and dims[op[1]][1] == 2 and len(op) - 2 < dims[op[1]][0]:
@@ -348,7 +431,9 @@ def crash_sig(case, text):
 FAMILIES = [dict(name='density', harness='drv_density.cpp', extract='Extract_density.v', model='model_density', gen=gen, oracle=oracle,
                  impl_timeout=120,   # a quick run takes ~10 s; a compaction loop that never terminates must be reported promptly
                 
-                 crash_sig=crash_sig)]
+                 crash_sig=crash_sig),
+            # implementation-only (no model run: k = 33000): one compaction dropping > 65535 points; oracle predicates only
+            dict(name='densitybigk', harness='drv_density.cpp', extract=None, gen=gen_big_k, oracle=oracle_big_k, cxx_flags='-O2 -fno-sanitize=all', impl_timeout=300)]
 
 MANIFEST = dict(
     level_text=('Theorems (coq/Properties_C20.v, 19, axiom-free) about an executable model of density_sketch (the code with the repairs fixes/20_is_empty_n and '
